@@ -33,7 +33,7 @@ RULE = (
     "case = (1-2 writer threads, each a list of critical sections `with tree:` of 2-3 mutation steps whose "
     "intermediate states are distinguishable from every committed state (paired nodes, clear+rebuild, add+move), "
     "optionally nesting `with tree:` and calling snapshot operations inside; 1-3 reader threads calling save (to a "
-    "stream and to a file path), copy, "
+    "stream and to a file path), to_dotfile (stream and path), copy, "
     "copy(predicate), filtered, copy_to, to_dict_list(mapper), to_dotfile(stream, node_mapper), `with tree:`+iterate; "
     "a schedule = list of ints). Oracle: every snapshot, decoded to a shape, equals a committed state S_j with "
     "commits-at-call-start <= j <= commits-at-return; no deadlock, no hang; no exception. Exhaustive part: ALL "
@@ -49,7 +49,7 @@ ASSUMPTIONS = [
 ]
 EXHAUSTIVE_NOTE = {"quick": "all schedules of a pair section x each of 8 snapshot operations, of a rebuild section x {to_dict_list, save} and of a typed pair section x save (evidence classes say whether a limit was hit)", "thorough": "all schedules of {pair, rebuild, move} section x each of 8 snapshot operations, plus 2-section writers"}
 
-READER_OPS = ["save", "copy", "copy_pred", "filtered", "copy_to", "to_dict_list", "to_dotfile", "with+iterate", "save_path"]
+READER_OPS = ["save", "copy", "copy_pred", "filtered", "copy_to", "to_dict_list", "to_dotfile", "with+iterate", "save_path", "to_dotfile_path"]
 SECTIONS = ["pair", "rebuild", "move"]
 
 
@@ -211,11 +211,26 @@ def do_reader_op(tree, op):
             return [[d["data"], conv(d.get("children", []))] for d in items]
 
         return conv(lst)
-    if op == "to_dotfile":
-        buf = YieldIO()
-        tree.to_dotfile(buf, unique_nodes=False, node_mapper=y_mapper)
+    if op in ("to_dotfile", "to_dotfile_path"):
+        if op == "to_dotfile":
+            buf = YieldIO()
+            tree.to_dotfile(buf, unique_nodes=False, node_mapper=y_mapper)
+            text = buf.getvalue()
+        else:
+            fd, path = tempfile.mkstemp(prefix="verif_c18_", suffix=".gv")
+            os.close(fd)
+            try:
+                yield_point("before-dotfile")
+                tree.to_dotfile(path, unique_nodes=False, node_mapper=y_mapper)
+                with open(path) as fp:
+                    text = fp.read()
+            finally:
+                try:
+                    os.unlink(path)
+                except OSError:
+                    pass
         labels, edges, section = {}, [], None
-        for ln in buf.getvalue().split("\n"):
+        for ln in text.split("\n"):
             if "# Node Definitions" in ln:
                 section = "n"
             elif "# Edge Definitions" in ln:
